@@ -263,8 +263,15 @@ pub fn tri_local(s: f32) -> BoxedStrategy<(String, [[f32; 2]; 3])> {
         let my = if lower { bot[1] - 1.0 } else { top[1] + 1.0 };
         ("one-row-half".to_string(), [top, [cx, my.clamp(0.0, s)], bot])
     });
+    // two vertices a few ulps below (or above) the same row of pixel centres: a half of (almost) zero height
+    // with an enormous edge slope, where any rounding slip in the row range shows as far-away pixels (F18)
+    let ulpflat = (0..si.max(1), -4i32..=4, -4i32..=4, screen_coord(s), screen_coord(s), pt(s)).prop_map(|(k, i, j, x0, x1, c)| {
+        let yc = k as f32 + 0.5;
+        ("ulp-flat".to_string(), [[x0, nudge(yc, i)], [x1, nudge(yc, j)], c])
+    });
     prop_oneof![
         8 => general,
+        2 => ulpflat,
         2 => flat,
         1 => vertical,
         3 => sliver,
@@ -328,6 +335,7 @@ pub fn shape_class(s: &str) -> &'static str {
         "collinear" => "shape:collinear",
         "coincident" => "shape:coincident",
         "one-row-half" => "shape:one-row-half",
+        "ulp-flat" => "shape:ulp-flat",
         _ => "shape:other",
     }
 }
